@@ -3774,9 +3774,9 @@ class AllConnGraph(nx.DiGraph):
         src_inds_list = self.nodes[node]['attrs'].src_inds_list
         if not src_inds_list:
             return None
-        elif len(src_inds_list) == 1:
-            return src_inds_list[0].shaped_array()
         else:
+            # apply the indexers to arange(shape) even for a single indexer: a non-tuple int or
+            # index array into a multi-dimensional (non flat) source selects along the first axis
             root = self.get_root(node)
             root_meta = self.nodes[root]['attrs']
             if root_meta.distributed:
